@@ -65,8 +65,8 @@ CLAIMED['C14'] = dict(
     level='proof',
     text='22 primitive operator functions, to<T>() and the scalar constructors C-extracted each run; for every (operator, operand-type pair) with concrete tags and fully symbolic 64-bit operand bits the result type and value equal what CBMC computes for the C expression itself '
          '(spec from the C/C++ standard via _Generic, definedness as guard); binaryOpNode/ternaryOpNode/leftUnaryOpNode::evaluate extracted through the C++ front end against ghost children counting evaluations (short-circuit, exactly one ?: branch). '
-         'Quick: 7x7 literal-reachable types; thorough: 11x11 + fidelity vectors. Tests sample a handful of constants.',
-    note='trusted: CBMC C/C++ front ends, SAT + cvc5 back ends, C extraction rules (references, namespaces, _Generic constructor selection), CBMC IEEE-754 model. Known findings: bool with & | ^ ~ (pinned by repo tests), ?: result type, 8/16-bit mixed signedness. Not done: literal typing (load/loadHex/loadBinary), compound-assign operators.',
+         'Literal typing (bounded): primitive::load/loadHex/loadBinary with the real parseInt/parseBinary extracted; for every literal text up to a stated digit count per base (quick: 10 decimal, 9 hex, 11 octal, 12 binary digits + every valid suffix) type, value and consumed length equal [lex.icon]/[lex.fcon]. Quick: 7x7 literal-reachable types; thorough: 11x11 + fidelity vectors. Tests sample a handful of constants.',
+    note='trusted: CBMC C/C++ front ends, SAT + cvc5 back ends, C extraction rules (references, namespaces, _Generic constructor selection), CBMC IEEE-754 model. Known findings: bool with & | ^ ~ (pinned by repo tests), ?: result type, 8/16-bit mixed signedness. strtod/strtof assumed correctly rounded. Not reached: compound-assign operators, sign path of load, hex-float / digit-separator literals.',
     technique='CBMC contracts on mechanically C-extracted real functions, one obligation group per operator x type pair; SMT (cvc5) for * / % and floats',
     design='5/C14')
 
